@@ -176,9 +176,24 @@ class SockWorld(worlds.World):
             out.append((t.cid, t.opened_at, end))
         return out
 
+    def wire_history(self):
+        """Residual state of the oracle: which frame attempts have been seen so far, per connection, in
+        order (header chunks identify the frame through the packet id).  Two states may only be merged
+        if the monitor owes / has seen the same things - the implementation state alone does not say
+        whether a message that is no longer queued was transmitted or lost."""
+        hl = 8 if self.gen == 4 else 20
+        off = 4 if self.gen == 4 else 16
+        now = self.loop.time()
+        out = []
+        for e in self.net.log:
+            if e[1] in ("write", "write_fail", "write_after_loss") and len(e[3]) == hl and e[3][:2] == b"\x55\x55":
+                out.append((e[2], e[1][6:8], e[3][off], round(e[0] - now, 6)))
+        return tuple(out)
+
     def fp_extra(self):
         return (worlds.net_state(self.net), len(self.calls),
-                tuple((c["idx"], c["status"], round(c["t"] - self.loop.time(), 6)) for c in self.calls))
+                tuple((c["idx"], c["status"], c["policy"], round(c["t"] - self.loop.time(), 6)) for c in self.calls),
+                self.wire_history(), tuple(round(t.opened_at - self.loop.time(), 6) for t in self.net.conns))
 
     def outcome(self):
         fr, pb = self.wire()
